@@ -88,6 +88,23 @@ def docSvg (block : Bool) (c : CssBox) (cb : Cb) (cbh : Len) (cbContentX positio
   let i ← svgIntrinsic w h viewbox
   docImageI block c cb cbh cbContentX positionY i
 
+/-- `css/validation/properties.py::image_resolution` on a single token (repair d011d54):
+`resolution = get_resolution(token); if resolution is not None and resolution > 0: return resolution`.
+`value` is `token.value` of a dimension token, `factor` the entry of `RESOLUTION_TO_DPPX` for its unit
+(`none`: not a dimension token, or not a resolution unit — `get_resolution` returns `None`).
+`none` = the declaration is invalid and dropped. -/
+def imageResolutionValid (value : Rat) (factor : Option Rat) : Option Rat :=
+  match factor with
+  | none => none
+  | some f => if value * f > 0 then some (value * f) else none
+
+/-- The computed `image-resolution` of an element that declares `declared` (value, unit factor) and
+otherwise has the initial value `1dppx` (no ancestor declares one). -/
+def computedResolution (declared : Option (Rat × Option Rat)) : Rat :=
+  match declared with
+  | none => 1
+  | some (v, f) => (imageResolutionValid v f).getD 1
+
 /-- The sizing step of `absolute_replaced(context, box, cb_x, cb_y, cb_width, cb_height)`
 (absolute.py): `inline_replaced_box_width_height(box, (cb_width, cb_height))`.
 `block_level_width` reads `containing_block[0]` of a tuple as the width of the containing block and
